@@ -2,6 +2,14 @@ package main
 
 // propRules: which rules decide which property.
 var propRules = map[string][]ruleSpec{
+	"C02": {
+		{"R3", "borrowed tensors / shared storage never mutated (E2)", ruleR3},
+		{"R1", "no package-level state written after init", ruleR1},
+	},
+	"C17": {
+		{"R3", "shared storage (weights, protobuf) never written (E2)", ruleR3},
+		{"R1", "no package-level state written; no goroutines/locks/unsafe", ruleR1},
+	},
 	"C15": {
 		{"R6", "operator gate tables T1-T8 (exhaustive over the registry)", ruleR6},
 		{"R2", "registry and constructor freshness", ruleR2},
